@@ -32,6 +32,10 @@ ASSUMPTIONS = [
     "the error-must-shrink clause is decided on the fixed (m, v, y, parameter) grid, aggregated as max and mean per likelihood/parameter/method "
     "(single Laplace cases oscillate with the position of the kink between nodes); seeded cases are only held to the bound at 40 nodes",
     "Monte-Carlo paths (marginal of Laplace/StudentT/Beta, all of Softmax) are statistical: only result shapes and finiteness are checked",
+    "repeated differentiation (part rediff): every backward pass through one graph of log_normal_cdf must deliver upstream x phi/Phi at the accuracy the property grants "
+    "(2e-3 relative for z < -1, 1e-12 elsewhere) - the first pass and every later one (retain_graph, accumulation into .grad, Jacobian rows); additionally every pass "
+    "must agree to 1e-12 with the same pass through a fresh graph, the tensors the forward left on the context must be bit-identical after every pass and the upstream tensors untouched; "
+    "for BernoulliLikelihood.expected_log_prob the per-term accuracy is propagated through the rule: |error| <= sum_i |c_i| phi/Phi(x_i) tol(x_i)",
     "a degree-2n monomial must miss the integral by s^2n n!; a different deficit is reported as MODEL-DRIFT (a rule exact to a higher degree "
     "would still satisfy the property)",
 ]
@@ -665,7 +669,7 @@ LN_BANDS = [(-1e9, -20, 1.2e-13), (-20, -10, 2.8e-14), (-10, -5, 5.9e-9), (-5, -
             (-1.1, -1.0, 1.91e-3)]    # calibrated max |error| per band for z < -1 (unchanged tree); 10 x these gives a MODEL-DRIFT note only
 
 
-def lncdf_items(seed, thorough):
+def lncdf_grid(seed, thorough):
     import numpy as np
     npts = 50001 if thorough else 5001
     zs = list(np.linspace(-40.0, 10.0, npts))
@@ -675,8 +679,160 @@ def lncdf_items(seed, thorough):
     rnd = random.Random(seed * 31 + 5)
     zs += [rnd.uniform(-40, 10) for _ in range(2000 if thorough else 500)]
     rnd.shuffle(zs)      # every chunk mixes the three branches in one tensor
+    return [float(z) for z in zs]
+
+
+def lncdf_items(seed, thorough):
+    zs = lncdf_grid(seed, thorough)
     ch = 400
     return [dict(kind="lncdf", z=zs[i:i + ch], wseed=seed + i) for i in range(0, len(zs), ch)]
+
+
+# =====================================================================================================================================
+# (d2) the derivative clause under repeated differentiation of one graph (Quadrature.tla part "rediff", BackwardOps.tla)
+# =====================================================================================================================================
+REDIFF_N = 48         # entries of the argument tensor of one history
+
+
+def rediff_items(hists, seed, thorough):
+    """hists: list of (case, history) from TLC's terminal states.  Every history of the log_normal_cdf route gets its own slice of the grid of (d)
+    restricted to the class of the case, so that together the histories cover the whole range incl. z < -1"""
+    zs = lncdf_grid(seed, thorough)
+    pools = {"tail": [z for z in zs if z < -1], "mixed": zs, "notail": [z for z in zs if not z < -1]}
+    pos = {k: 0 for k in pools}
+    out = []
+    for k, (case, hist) in enumerate(hists):
+        it = dict(kind="rediff", cell=case, hist=hist, seed=seed * 7907 + k)
+        if case["route"] == "log_normal_cdf":
+            pool = pools[case["zc"]]
+            z = [pool[(pos[case["zc"]] + i) % len(pool)] for i in range(REDIFF_N)]
+            pos[case["zc"]] += REDIFF_N
+            if case["zc"] == "mixed":       # all three branches in every tensor
+                z[:6] = [-7.3 - 0.01 * (k % 50), -1.0 - 1e-9, -1.0, 0.1, -0.15, 2.5]
+            it["z"] = z
+        out.append(it)
+    return out
+
+
+class LnSubject:
+    """log_normal_cdf on a slice of the grid; derivative = phi/Phi to 2e-3 relative for z < -1, to rounding (1e-12) elsewhere"""
+    node_name = "LogNormalCDFBackward"
+    lower_out = ()
+
+    def __init__(self, torch, it):
+        mp = ref.mpm()
+        self.torch, self.zs = torch, it["z"]
+        L = len(self.zs)
+        shape = (2, L // 2) if it["cell"]["batch"] == "b2" else (L,)
+        self.z0 = torch.tensor(self.zs, dtype=torch.float64).reshape(shape)
+        self.true = torch.tensor([float(mp.npdf(mp.mpf(z)) / mp.ncdf(mp.mpf(z))) for z in self.zs], dtype=torch.float64).reshape(shape)
+        self.rt = torch.tensor([2e-3 if z < -1 else 1e-12 for z in self.zs], dtype=torch.float64).reshape(shape)
+
+    def forward(self):
+        from gpytorch.functions import log_normal_cdf
+        z = self.z0.clone().requires_grad_(True)
+        return [z], [log_normal_cdf(z)]
+
+    def functional(self):
+        from gpytorch.functions import log_normal_cdf
+        return (lambda z: log_normal_cdf(z)), [self.z0.clone()]
+
+    def check(self, us, grads, slack=None):
+        torch = self.torch
+        want = us[0] * self.true
+        err = (grads[0] - want).abs()
+        bad = err > self.rt * want.abs() + 1e-300 + (slack[0] if slack and slack[0] is not None else 0.0)
+        if bool(bad.any()):
+            k = int(torch.argmax(((err / (want.abs() + 1e-300)) * bad).reshape(-1)))
+            z = self.zs[k]
+            return False, ("tail" if z < -1 else "near-zero" if z * z < 0.04 else "ordinary") + "/derivative", "at z=%.17g: delivered %.15g, upstream x phi/Phi = %.15g (relative error %.3e, allowed %.0e)" % (
+                z, float(grads[0].reshape(-1)[k]), float(want.reshape(-1)[k]), float((err / want.abs()).reshape(-1)[k]), float(self.rt.reshape(-1)[k]))
+        return True, "", ""
+
+
+class BernSubject:
+    """BernoulliLikelihood.expected_log_prob as a function of the mean and variance of the function distribution: the gradients are sums over the
+    quadrature nodes of the derivative of log_normal_cdf.  Reference: the same rule (numpy's nodes) with phi/Phi from mpmath; each term may be off by
+    2e-3 relative where its argument is below -1 and by rounding elsewhere"""
+    node_name = "LogNormalCDFBackward"
+    lower_out = ()
+    N = 4
+
+    def __init__(self, torch, gpytorch, it, g):
+        import numpy as np
+        mp = ref.mpm()
+        D = torch.float64
+        self.torch, self.gp = torch, gpytorch
+        bs = [2] if it["cell"]["batch"] == "b2" else []
+        zc = it["cell"]["zc"]
+        N = self.N
+        y = (torch.rand(*bs, N, generator=g, dtype=D) > 0.5).to(D)
+        sgn = 2 * y - 1
+        mag = 0.3 * torch.rand(*bs, N, generator=g, dtype=D) if zc == "uncertain" else 1.5 + 2.0 * torch.rand(*bs, N, generator=g, dtype=D)
+        self.mean0 = mag * (sgn if zc != "confident-wrong" else -sgn)
+        self.var0 = torch.exp(3 * torch.rand(*bs, N, generator=g, dtype=D) - 2.5)
+        self.y = y
+        self.lik = make_lik(torch, gpytorch, "Bernoulli", {}, 0)
+        n = self.lik.quadrature.locations.numel()
+        t, w = np.polynomial.hermite.hermgauss(n)
+        sq = math.sqrt(math.pi)
+        gm, gv, tm, tv = [], [], [], []
+        for m, v, s_ in zip(self.mean0.reshape(-1).tolist(), self.var0.reshape(-1).tolist(), sgn.reshape(-1).tolist()):
+            am = av = em = evv = mp.mpf(0)
+            for tj, wj in zip(t.tolist(), w.tolist()):
+                x = mp.mpf(s_) * (mp.mpf(m) + mp.sqrt(2 * mp.mpf(v)) * mp.mpf(tj))
+                Dx = mp.npdf(x) / mp.ncdf(x)
+                cm = mp.mpf(wj) / sq * mp.mpf(s_)
+                cv = cm * mp.mpf(tj) / mp.sqrt(2 * mp.mpf(v))
+                tol = mp.mpf("2e-3") if x < -1 else mp.mpf("1e-12")
+                am += cm * Dx
+                av += cv * Dx
+                em += abs(cm) * Dx * tol
+                evv += abs(cv) * Dx * tol
+            gm.append(float(am)), gv.append(float(av)), tm.append(float(em)), tv.append(float(evv))
+        sh = self.mean0.shape
+        self.gm, self.gv = torch.tensor(gm, dtype=D).reshape(sh), torch.tensor(gv, dtype=D).reshape(sh)
+        self.tm, self.tv = torch.tensor(tm, dtype=D).reshape(sh), torch.tensor(tv, dtype=D).reshape(sh)
+
+    def _elp(self, mean, var):
+        fd = self.gp.distributions.MultivariateNormal(mean, self.torch.diag_embed(var))
+        return self.lik.expected_log_prob(self.y, fd)
+
+    def forward(self):
+        mean, var = self.mean0.clone().requires_grad_(True), self.var0.clone().requires_grad_(True)
+        return [mean, var], [self._elp(mean, var)]
+
+    def functional(self):
+        return (lambda mean, var: self._elp(mean, var)), [self.mean0.clone(), self.var0.clone()]
+
+    def check(self, us, grads, slack=None):
+        # observation i depends on (m_i, v_i) only: d (u . elp) / d m_i = u_i d elp_i / d m_i
+        sl = [x if x is not None else 0.0 for x in (slack or [None, None])]
+        for lab, got, want, tol, sk in (("mean", grads[0], us[0] * self.gm, us[0].abs() * self.tm, sl[0]), ("variance", grads[1], us[0] * self.gv, us[0].abs() * self.tv, sl[1])):
+            err = (got - want).abs()
+            bad = err > tol + 1e-13 * want.abs() + 1e-300 + sk
+            if bool(bad.any()):
+                k = int(self.torch.argmax((err * bad).reshape(-1)))
+                return False, "d-" + lab, "observation %d (y=%d, m=%.6g, v=%.6g): d/d %s delivered %.12g, the rule applied to phi/Phi gives %.12g (allowed deviation %.3e)" % (
+                    k, int(self.y.reshape(-1)[k]), float(self.mean0.reshape(-1)[k]), float(self.var0.reshape(-1)[k]), lab, float(got.reshape(-1)[k]), float(want.reshape(-1)[k]), float(tol.reshape(-1)[k]))
+        return True, "", ""
+
+
+def run_rediff(torch, gpytorch, it):
+    from checks import c19_multi as cm
+    case, hist = it["cell"], it["hist"]
+    if case["route"] == "log_normal_cdf":
+        desc = "log_normal_cdf on %d grid points of class %s, shape %s" % (len(it["z"]), case["zc"], "2 x %d" % (len(it["z"]) // 2) if case["batch"] == "b2" else "flat")
+        sig = "C13/log_normal_cdf/rediff"
+        fac = lambda g: LnSubject(torch, it)
+    else:
+        desc = "BernoulliLikelihood.expected_log_prob (%s predictions, batch %s), gradients w.r.t. mean and variance" % (case["zc"], case["batch"])
+        sig = "C13/bernoulli-elp/rediff"
+        fac = lambda g: BernSubject(torch, gpytorch, it, g)
+    r = cm.run_history(torch, gpytorch, fac, hist, it["seed"], sig, desc, it, ["rediff", case, [[h["u"], h["how"]] for h in hist], it.get("z", [None])[0]])
+    if r.get("ok") and it["seed"] % 53 == 0:
+        r["sample"] = dict(case=desc, history=cm.hist_desc(hist), verdict="every pass = upstream x phi/Phi within the granted accuracy; context unchanged")
+    return [r]
 
 
 def run_lncdf(torch, gpytorch, it):
@@ -731,7 +887,7 @@ def run_lncdf(torch, gpytorch, it):
 
 
 # =====================================================================================================================================
-RUNNERS = dict(poly=run_poly, table=run_table, shape=run_shape, cell=run_cell, cond=run_cond, bern=run_bern, integral=run_integral, lncdf=run_lncdf)
+RUNNERS = dict(rediff=run_rediff, poly=run_poly, table=run_table, shape=run_shape, cell=run_cell, cond=run_cond, bern=run_bern, integral=run_integral, lncdf=run_lncdf)
 
 
 def worker(it):
